@@ -1058,15 +1058,51 @@ def species_order(pkg):
     return fn, fl, out
 
 
+def _is_chain(v):
+    """arguments of itertools.chain(a, b, ..) (imported either way), else None"""
+    if v[0] == "call" and v[1] == ("global", "chain") and not v[3]:
+        return v[2]
+    if v[0] == "meth" and v[1] == ("global", "itertools") and v[2] == "chain" and not v[4]:
+        return v[3]
+    return None
+
+
+def _members_added(x):
+    """the sets whose union holds exactly the elements of the iterable x (an argument of set(..) / .union(..) / a starred entry of
+    a set display): a set is itself; a concatenation / chain of iterables is each of them; list(..) / tuple(..) / sorted(..) of an
+    iterable is that iterable; anything else is the canonical `set(x)`"""
+    if _setness(x) == "set":
+        return union_operands(x)
+    ch = _is_chain(x)
+    if ch is not None:
+        return [o for a in ch for o in _members_added(a)]
+    if x[0] == "binop" and x[1] == "Add":
+        return _members_added(x[2]) + _members_added(x[3])
+    if x[0] == "call" and x[1] in (("global", "list"), ("global", "tuple"), ("global", "sorted")) and len(x[2]) == 1 and not (set(dict(x[3])) - {"key", "reverse"}):
+        return _members_added(x[2][0])
+    if x[0] in ("list", "tuple") and x[1] and all(e[0] == "star" for e in x[1]):
+        return [o for e in x[1] for o in _members_added(e[1])]
+    return [("call", ("global", "set"), (x,), ())]
+
+
 def union_operands(v):
-    """operands of a set union spelled with `|` or .union(..), flattened"""
+    """operands of a set union, flattened and in canonical form (a set as itself, any other iterable X as `set(X)`), whatever the
+    spelling: `a | b`, `a.union(b, c)`, `set().union(a, b)`, `set(chain(a, b))`, `set(list(a) + b)`, `{*a, *b}`"""
     if v[0] == "binop" and v[1] == "BitOr":
         return union_operands(v[2]) + union_operands(v[3])
     if v[0] == "meth" and v[2] == "union" and not v[4]:
         out = union_operands(v[1])
         for a in v[3]:
-            out += union_operands(a)
+            out += _members_added(a)
         return out
+    if v[0] == "call" and v[1] in (("global", "set"), ("global", "frozenset")) and not v[3]:
+        if not v[2]:
+            return []
+        if len(v[2]) == 1:
+            inner = _members_added(v[2][0])
+            return inner if inner != [v] else [v]
+    if v[0] == "set" and v[1] and all(e[0] == "star" for e in v[1]):
+        return [o for e in v[1] for o in _members_added(e[1])]
     return [v]
 
 
@@ -1099,6 +1135,8 @@ def _setness(v):
         return "list"
     if k == "attr" and v[1] == SELF and v[2] == "_required_species":
         return "list"
+    if _is_chain(v) is not None:
+        return "list"           # one iterable after the other: every entry is kept
     return None
 
 
@@ -1288,4 +1326,15 @@ BENIGN += [
         {"file": SP, "old": "    _replacement = {}\n", "new": "    _replacement = {}\n    _ELECTRON_KEY = \"Electron\"\n"},
         {"file": SP, "old": _HASH_OLD, "new": '            hash(self._ELECTRON_KEY)\n            if self.is_electron\n'}]},
     {"name": "eq-grain-predicate-helper", "edits": _eq_helper(True)},
+]
+_POOL_OLD = "        speclist = sorted(\n            self._reactants | self._products | set(self._required_species)\n        )\n\n        connection = {sp: set() for sp in speclist}\n"
+BENIGN += [
+    {"name": "species-pool-by-set-method", "file": NETF, "old": _POOL_OLD,
+     "new": "        speclist = sorted(set().union(self._reactants, self._products, self._required_species))\n\n        connection = {sp: set() for sp in speclist}\n"},
+    {"name": "species-pool-by-set-display", "file": NETF, "old": _POOL_OLD,
+     "new": "        speclist = sorted({*self._reactants, *self._products, *self._required_species})\n\n        connection = {sp: set() for sp in speclist}\n"},
+]
+MUTANTS += [
+    {"name": "species-pool-chained-list", "file": NETF, "old": _POOL_OLD,
+     "new": "        speclist = sorted(itertools.chain(self._reactants | self._products, self._required_species))\n\n        connection = {sp: set() for sp in speclist}\n", "rules": ["R9"]},
 ]
